@@ -3,87 +3,12 @@
    and the bytes consumed (the remaining events deliver exactly the remaining bytes) -- and so does every decoder that uses
    the stream only through these reads. *)
 From Coq Require Import Lia.
+From PV Require Import Thrift.AsyncEv Proofs.AsyncEvP.
 From PVGen Require Import GenAsync GenEvents.
 Open Scope Z_scope.
 
-Lemma take_app_long n (c l : list byte) : (length c <= n)%nat ->
-  take n (c ++ l) = match take (n - length c) l with Some (x, r) => Some (c ++ x, r) | None => None end.
-Proof.
-  intros H. unfold take. rewrite app_length.
-  destruct (Nat.leb (n - length c) (length l)) eqn:E.
-  - apply Nat.leb_le in E. replace (Nat.leb n (length c + length l)) with true by (symmetry; apply Nat.leb_le; lia).
-    rewrite firstn_app, skipn_app. rewrite firstn_all2 by lia. rewrite skipn_all2 by lia. reflexivity.
-  - apply Nat.leb_gt in E. replace (Nat.leb n (length c + length l)) with false by (symmetry; apply Nat.leb_gt; lia). reflexivity.
-Qed.
-
-(* ---------- one poll ---------- *)
-Lemma poll_ready cap es got rest : poll_read cap es = Ready got rest ->
-  got ++ bytes_of rest = bytes_of es /\ (length got <= cap)%nat /\ ((1 <= cap)%nat -> (1 <= length got)%nat) /\ (length rest <= length es)%nat.
-Proof.
-  destruct es as [|[c|] r]; cbn [poll_read]; try discriminate. destruct c as [|b c]; [discriminate|].
-  destruct (Nat.leb (length (b :: c)) cap) eqn:E; intros H; injection H as <- <-.
-  - apply Nat.leb_le in E. cbn [bytes_of length] in *. repeat split; lia.
-  - apply Nat.leb_gt in E. cbn [bytes_of]. rewrite app_assoc, firstn_skipn. rewrite firstn_length. cbn [length] in *.
-    repeat split; try lia.
-Qed.
-Lemma poll_notready cap es r : poll_read cap es = NotReady r -> bytes_of r = bytes_of es /\ (length r < length es)%nat.
-Proof.
-  destruct es as [|[c|] r0]; cbn [poll_read]; try discriminate.
-  - destruct c as [|b c]; [intros H; injection H as <-; cbn; split; [reflexivity|lia]|]. destruct (Nat.leb (length (b :: c)) cap); discriminate.
-  - intros H; injection H as <-. cbn. split; [reflexivity|lia].
-Qed.
-Lemma poll_eof cap es : poll_read cap es = Eof -> bytes_of es = [].
-Proof.
-  destruct es as [|[c|] r]; cbn [poll_read]; try discriminate; [reflexivity|].
-  destruct c as [|b c]; [discriminate|]. destruct (Nat.leb (length (b :: c)) cap); discriminate.
-Qed.
-
-(* ---------- read_exact ---------- *)
-Lemma ev_read_exact_spec : forall f n acc es, (length es + n < f)%nat ->
-  match ev_read_exact f n acc es with
-  | Some (a, es') => exists x, a = acc ++ x /\ take n (bytes_of es) = Some (x, bytes_of es')
-  | None => take n (bytes_of es) = None
-  end.
-Proof.
-  induction f as [|f IH]; intros n acc es Hf; [lia|]. destruct n as [|n].
-  - cbn [ev_read_exact]. exists []. rewrite app_nil_r. split; reflexivity.
-  - cbn [ev_read_exact]. destruct (poll_read (Datatypes.S n) es) as [got rest|r|] eqn:P.
-    + destruct (poll_ready _ _ _ _ P) as (Hb & Hc & Hp & Hl). specialize (Hp ltac:(lia)).
-      specialize (IH (Datatypes.S n - length got)%nat (acc ++ got) rest ltac:(lia)).
-      rewrite <- Hb, (take_app_long _ got (bytes_of rest) Hc).
-      destruct (ev_read_exact f (Datatypes.S n - length got) (acc ++ got) rest) as [[a es']|].
-      * destruct IH as (x & -> & ->). exists (got ++ x). rewrite app_assoc. split; reflexivity.
-      * rewrite IH. reflexivity.
-    + destruct (poll_notready _ _ _ P) as (Hb & Hl). rewrite <- Hb. apply IH. lia.
-    + rewrite (poll_eof _ _ P). reflexivity.
-Qed.
-
-Theorem ev_take_spec n es :
-  match ev_take n es with
-  | Some (a, es') => take n (bytes_of es) = Some (a, bytes_of es')
-  | None => take n (bytes_of es) = None
-  end.
-Proof.
-  unfold ev_take, ev_fuel. pose proof (ev_read_exact_spec (Datatypes.S (length es + n)) n [] es ltac:(lia)) as H.
-  destruct (ev_read_exact (Datatypes.S (length es + n)) n [] es) as [[a es']|]; [|exact H].
-  destruct H as (x & -> & H). exact H.
-Qed.
-
-(* ---------- read_varint_async ---------- *)
-Lemma take_1 (l : list byte) : take 1 l = match l with [] => None | b :: r => Some ([b], r) end.
-Proof. destruct l; reflexivity. Qed.
-
-Lemma ev_rd_var_spec : forall k shift acc es,
-  match ev_rd_var k shift acc es with
-  | Ok (z, es') => rd_var k shift acc (bytes_of es) = Ok (z, bytes_of es')
-  | Err e => rd_var k shift acc (bytes_of es) = Err e
-  | Panic st => rd_var k shift acc (bytes_of es) = Panic st
-  end.
-Proof.
-  induction k as [|k IH]; intros shift acc es; cbn [ev_rd_var rd_var]; pose proof (ev_take_spec 1 es) as H; rewrite take_1 in H;
-    destruct (ev_take 1 es) as [[a es']|]; destruct (bytes_of es) as [|b r] eqn:B; try discriminate H; try reflexivity.
-  injection H as <- Hr. cbv zeta. destruct (b2z b <? 128); [rewrite Hr; reflexivity|]. rewrite Hr. apply IH.
-Qed.
+(* the lemmas about the stream itself (poll_*, ev_take_spec, ev_rd_var_spec, ev_read_to_end_spec, ev_read_exact_to_vec_spec) are in
+   PV.Proofs.AsyncEvP, with the definitions *)
 
 Theorem ev_varint_spec m es :
   match ev_varint m es with
@@ -94,45 +19,6 @@ Theorem ev_varint_spec m es :
 Proof.
   unfold ev_varint, a_varint, read_var_u64. cbn [rbuf]. pose proof (ev_rd_var_spec m 0 0 es) as H.
   destruct (ev_rd_var m 0 0 es) as [[z es']|e|st]; rewrite H; reflexivity.
-Qed.
-
-(* ---------- Take::read_to_end, any positive step ---------- *)
-Lemma firstn_app_long {A} n (x y : list A) : (length x <= n)%nat -> firstn n (x ++ y) = x ++ firstn (n - length x) y.
-Proof. intros H. rewrite firstn_app, firstn_all2 by lia. reflexivity. Qed.
-Lemma skipn_app_long {A} n (x y : list A) : (length x <= n)%nat -> skipn n (x ++ y) = skipn (n - length x) y.
-Proof. intros H. rewrite skipn_app, skipn_all2 by lia. reflexivity. Qed.
-
-Lemma ev_read_to_end_spec step : forall f limit acc es, (length es + limit < f)%nat ->
-  let '(a, es') := ev_read_to_end f step limit acc es in
-  a = acc ++ firstn limit (bytes_of es) /\ bytes_of es' = skipn limit (bytes_of es).
-Proof.
-  induction f as [|f IH]; intros limit acc es Hf; [lia|]. destruct limit as [|limit].
-  - cbn [ev_read_to_end firstn skipn]. rewrite app_nil_r. split; reflexivity.
-  - cbn [ev_read_to_end].
-    destruct (poll_read (Nat.min (Datatypes.S (step (length acc))) (Datatypes.S limit)) es) as [got rest|r|] eqn:P.
-    + destruct (poll_ready _ _ _ _ P) as (Hb & Hc & Hp & Hl). specialize (Hp ltac:(lia)).
-      assert (Hg : (length got <= Datatypes.S limit)%nat) by lia.
-      specialize (IH (Datatypes.S limit - length got)%nat (acc ++ got) rest ltac:(lia)).
-      destruct (ev_read_to_end f step (Datatypes.S limit - length got) (acc ++ got) rest) as [a es'].
-      destruct IH as (-> & ->). rewrite <- Hb, (firstn_app_long _ got _ Hg), (skipn_app_long _ got _ Hg), app_assoc. split; reflexivity.
-    + destruct (poll_notready _ _ _ P) as (Hb & Hl). rewrite <- Hb. apply IH. lia.
-    + rewrite (poll_eof _ _ P). destruct limit; cbn [firstn skipn]; rewrite app_nil_r; split; try reflexivity; rewrite (poll_eof _ _ P); reflexivity.
-Qed.
-
-(* ---------- read_exact_to_vec: both paths ---------- *)
-Theorem ev_read_exact_to_vec_spec step len es :
-  match ev_read_exact_to_vec step len es with
-  | Some (a, es') => take len (bytes_of es) = Some (a, bytes_of es')
-  | None => take len (bytes_of es) = None
-  end.
-Proof.
-  unfold ev_read_exact_to_vec. destruct (Nat.leb len prealloc_limit); [apply ev_take_spec|].
-  pose proof (ev_read_to_end_spec step (ev_fuel len es) len [] es ltac:(unfold ev_fuel; lia)) as H.
-  destruct (ev_read_to_end (ev_fuel len es) step len [] es) as [v es']. destruct H as (-> & Hr). cbn [app].
-  unfold take. rewrite firstn_length. destruct (Nat.eqb (Nat.min len (length (bytes_of es))) len) eqn:E.
-  - apply Nat.eqb_eq in E. replace (Nat.leb len (length (bytes_of es))) with true by (symmetry; apply Nat.leb_le; lia).
-    rewrite Hr. reflexivity.
-  - apply Nat.eqb_neq in E. replace (Nat.leb len (length (bytes_of es))) with false by (symmetry; apply Nat.leb_gt; lia). reflexivity.
 Qed.
 
 (* ---------- every decoder that uses the stream only through these reads ---------- *)
